@@ -29,6 +29,8 @@ func init() {
 			{ID: "C10.R6", Text: "together with the partition rule: a member takes exactly chunk MemberNumber-1 of TotalMembers chunks (same rule as C09.R2)", Run: c09r2},
 			{ID: "C10.R7", Text: "leader-assigned variant, admission and removal: a registration replaces the follower's entry unconditionally (the table is mutated only by Store(name, service) in Add and Delete in Remove); the heart-beat removes exactly the followers whose Ping returned an error; the rpc calls return the retry helper's result, and Retry reports nil ⇔ some attempt succeeded (exhaustive for ≤ 4 attempts)", Run: c10r7},
 			{ID: "C10.R8", Text: "every follower is pinged, numbered and listed: every loop over a concurrent map runs to completion: the Range callback returns true on every path (frozen exception: markAbsentInstances stops at the error it returns)", Run: rangeComplete("servicediscovery.", "couchbase.cbMembership)")},
+			{ID: "C10.R9", Text: "static numbering is what was configured: defaulting never rewrites a configured member number or group size (every default store is guarded by the zero-test of its own field; the environment overrides come last) (same rule as C17.R1)", Run: c17r1},
+			{ID: "C10.R11", Text: "a member is who it is by name and address: Identity.Equal ⇔ same IP ∧ same name (exhaustive), independent of the join time that changes when a container restarts in place", Run: identityEqual},
 			{ID: "C10.R5", Text: "Couchbase membership: lastActiveInstances is written only in the numbering step after the publish decision; on CAS mismatch the round is restarted (monitor re-entered), nothing is rewritten", Run: c10r5},
 		},
 	})
@@ -124,6 +126,33 @@ func c10r1(c *Ctx, id string) {
 						}
 					})
 				}
+			}
+		}
+		// nobody else rewrites the membership in effect: besides the publishing branch (and a bus listener recording what
+		// was announced to it) the field is never assigned — not seeded from the configuration, not reset to nil —
+		// otherwise the first announcement equal to the seed is swallowed, or a repetition is announced again
+		if ok && strings.HasPrefix(cmp, "recv.") && !strings.Contains(strings.TrimPrefix(cmp, "recv."), ".") && s.Fn.Signature.Recv() != nil {
+			var fv *types.Var
+			allInstrs(s.Fn, func(in ssa.Instruction) {
+				if call, isCall := in.(*ssa.Call); isCall && call.Common().StaticCallee() == ic && call.Common().Args[0] == x {
+					fv = loadedField(unwrap(call.Common().Args[1]))
+				}
+			})
+			if fv != nil {
+				var other []string
+				for _, fs := range w.fieldStores(fv) {
+					if _, lit := fs.Store.Addr.(*ssa.FieldAddr).X.(*ssa.Alloc); lit && isNilConst(fs.Store.Val) {
+						continue
+					}
+					switch {
+					case fs.Fn == s.Fn && unwrap(fs.Store.Val) == x:
+					case len(fs.Fn.Params) == 2 && fs.Fn.Signature.Recv() != nil && w.Origin(fs.Store.Val) == "param("+fs.Fn.Params[1].Name()+")" && len(w.usesAsValue(fs.Fn)) > 0:
+					default:
+						other = append(other, fname(fs.Fn)+" ← "+w.Origin(fs.Store.Val)+" @"+w.pos(fs.Store.Pos()))
+					}
+				}
+				sort.Strings(other)
+				c.Check(len(other) == 0, id, "in-effect-writers@"+fname(s.Fn), s.Call.Pos(), "the membership in effect ("+cmp+") is assigned only the value being announced (or recorded by the bus listener)", "the membership in effect ("+cmp+") is also assigned elsewhere: "+strings.Join(other, "; ")+" — an announcement equal to that value is swallowed, or a repeated membership is announced again")
 			}
 		}
 		if ok && strings.HasPrefix(cmp, "recv.") && !updated {
